@@ -89,8 +89,10 @@ def case_rod(kind, n_elems, taper, bent, rot_idx, density, seed):
     planar = bodies.rod_grid_is_planar(kind)
     rots = bodies.rotations_2d() if planar else bodies.rotations_3d()
     rot = rots[rot_idx % len(rots)]
-    rod = bodies.make_rod(n_elems, taper, bent, rot=rot, planar=planar, seed=seed)
+    # the forcing grid is constructed on the STRAIGHT rod; the rod is bent / rotated / twisted afterwards
+    rod = bodies.make_rod(n_elems, taper, bent, rot=rot, planar=planar, seed=seed, deform=False)
     grid = bodies.make_rod_grid(kind, rod, density=density)
+    bodies.deform_rod(rod, bent, rot, planar, seed)
     d = grid.grid_dim
     n = grid.num_lag_nodes
     fails = []
